@@ -530,8 +530,8 @@ func relay(c *hx.Ctx, tr string) {
 
 func main() {
 	hx.RegisterChild("c01", child)
-	quick, thorough := 100, 800
-	run := &runner{size: 1, workers: 8, ahead: 16, timeout: 240 * time.Second}
+	quick, thorough := 100, 600
+	run := &runner{size: 1, workers: 12, ahead: 24, timeout: 240 * time.Second}
 	total := func(c *hx.Ctx) int {
 		if c.Thorough() {
 			return thorough
@@ -564,7 +564,7 @@ func main() {
 	}
 	hx.Main(hx.Family{
 		Name: "c01",
-		Rule: "points/paths/areas/relations in 1-4 namespaces per type (OSM and custom, with '/'), ids from boundary values (0, 2^31±1, 2^32, 2^63-1, 2^63.., 2^64-1), blocks of 1-3 features and of hundreds; paths by reference / lat-lng / mixed, open, closed ccw / cw / self-crossing, with missing points; areas by path refs / explicit loops / mixed, over open, dropped and absent paths; relation members of every type incl. relations and absent points; string and point tag values (a single feature-id value = finding class fid-tag-value, corpus only); source order by type / areas first / shuffled; 1-3 goroutines. Non-trivial = at least two feature types and at least one cross reference",
+		Rule: "points/paths/areas/relations in 1-4 namespaces per type (OSM and custom, with '/'), ids from boundary values (0, 2^31±1, 2^32, 2^63-1, 2^63.., 2^64-1), blocks of 1-3 features and of hundreds; paths by reference / lat-lng / mixed, open, closed ccw / cw / self-crossing, with missing points; areas by path refs / explicit loops / mixed, over open, dropped and absent paths; explicit polygons of several loops with holes and with degenerate loops that collapse at E7 (first / middle / last; S2 oracle per loop); heavy features at a low rate (records > 64 KB, 300-3000 tags, 300-3000 path points, 300-70000 relation members, 300-3000 paths through one point); relation members of every type incl. relations and absent points; string and point tag values (a single feature-id value = finding class fid-tag-value, corpus only); source order by type / areas first / shuffled; 1-3 goroutines. Non-trivial = at least two feature types and at least one cross reference",
 		Quick:    quick,
 		Thorough: thorough,
 		Corpus: func(c *hx.Ctx) {
